@@ -597,7 +597,11 @@ where
 /// A type used for more advanced ways of allocating a [`Gc`].
 pub struct GcBuilder<'gc, T: ?Sized, M = (), P = UnitPtrMeta> {
     ptr: GcPtr<T>,
-    _marker: PhantomData<(Invariant<'gc>, M, P)>,
+    // A `GcBuilder` is a place a `T` is *written into*, so it must be invariant in `T`: if it
+    // were covariant, a `GcBuilder<Static<Box<dyn Fn() + 'static>>>` (whose `Collect` impl relies on
+    // the `'static` bound) could be coerced to a `GcBuilder<Static<Box<dyn Fn() + 'gc>>>` and filled
+    // with a value that holds untraced `Gc` pointers.
+    _marker: PhantomData<(Invariant<'gc>, M, P, *mut T)>,
 }
 
 impl<'gc, T: ?Sized, M, P> Drop for GcBuilder<'gc, T, M, P> {
